@@ -35,9 +35,14 @@ CONFIG = dict(
         "Rbgp.Api.Props.flags_not_carried",
         "Rbgp.Api.Props.from_api_wf",
         "Rbgp.Api.Props.from_api_wf_nlri",
-        "Rbgp.Api.Props.accepted_listed_unchanged",
+        "Rbgp.Api.Props.listed_same_as_added",
+        "Rbgp.Api.Props.listed_same_as_added_nlri",
+        "Rbgp.Api.Props.listed_path_same_as_added",
+        "Rbgp.Api.Props.next_hop_not_listed",
+        "Rbgp.Api.Props.accepted_reimports_unchanged",
         "Rbgp.Api.Props.from_api_never_panics",
         "Rbgp.Api.Props.net_from_api_never_panics",
+        "Rbgp.Api.Props.oversized_value_refused",
         "Rbgp.Api.Props.wf_safe_cmp",
         "Rbgp.Api.Props.wf_safe_policy",
         "Rbgp.Api.Props.wf_safe_encode",
@@ -46,12 +51,15 @@ CONFIG = dict(
         "Rbgp.Api.Props.accepted_is_safe",
         "Rbgp.Api.Props.decode_wf",
         "Rbgp.Api.Props.decode_wf_nlri",
+        "Rbgp.Api.Props.nlri_decoder_never_panics",
         "Rbgp.Api.Props.s27_raw_as_path_accepted",
         "Rbgp.Api.Props.s27_raw_as_path_crashes",
         "Rbgp.Api.Props.s27_raw_local_pref_crashes",
         "Rbgp.Api.Props.s27_out_of_range_accepted",
         "Rbgp.Api.Props.s27_roundtrip_failures",
         "Rbgp.Api.Props.s27_labeled_prefix_crashes",
+        "Rbgp.Api.Props.silent_alteration_before_repair",
+        "Rbgp.Api.Props.oversized_value_accepted_before_repair",
     ],
     harness=dict(kind="daemon", test="event::verif_event::c17::verif_main"),
     profiles=["debug"],
@@ -74,7 +82,7 @@ CONFIG = dict(
                    "(attr 16 ", "(attr 32 ", "(attr 26 ", "(attr 3 ", "(attr 14 ", "(opaque x", "not-stored rejected", "not-stored dropped",
                    "(from err)", "(decode err)", "(v4 ", "(v6 ", "(lv4 ", "(lv6 ", "(vpn4 ", "(vpn6 ", "(rd2 ", "(rd-ip ", "(rd4 ",
                    "two-as", "ip4-as", "four-as", "(mup ", "(rate ", "(action ", "redir2", "(remark ", "redir-ip", "redir4",
-                   "ec-unknown", "(ip6 ", "(x ok)", "(x fail", "(ok (some ", "(ok none)"],
+                   "ec-unknown", "(ip6 ", "(x ok)", "(x fail", "(ok (some ", "(ok none)", "(grpc (listed", "(grpc add-refused)", " err ok)", " err err)"],
     trusted_base=["model Rbgp/Api/Model.lean of daemon/src/convert.rs (modelled kinds), packet/src/bgp.rs (attribute loop of "
                   "parse_message, Attribute::decode/encode, AS_PATH walkers), labeled.rs/vpn.rs/mpls.rs/rd.rs, and the accessors "
                   "of impl Ord for RibEntry in table/src/lib.rs",
@@ -84,21 +92,26 @@ CONFIG = dict(
     theorem_backed=["ORIGIN", "AS_PATH", "NEXT_HOP (API side)", "MULTI_EXIT_DISC", "LOCAL_PREF", "ATOMIC_AGGREGATE", "AGGREGATOR",
                     "COMMUNITIES", "ORIGINATOR_ID", "CLUSTER_LIST", "EXTENDED_COMMUNITIES (all typed shapes + raw)",
                     "LARGE_COMMUNITIES", "AIGP / MP_REACH / MP_UNREACH as raw", "unrecognised optional transitive attributes",
-                    "IPv4 / IPv6 prefix", "labeled IPv4 / IPv6 prefix", "VPNv4 / VPNv6 prefix + route distinguisher"],
+                    "IPv4 / IPv6 prefix", "labeled IPv4 / IPv6 prefix", "VPNv4 / VPNv6 prefix + route distinguisher",
+                    "GrpcService::local_path + add_path + list_path + destination_to_api (attribute selection, defaults, listing)",
+                    "attribute / message size (u16 length sum modelled; values bounded at the API)"],
     hypothesis_backed=["BGP-LS attribute TLVs", "TUNNEL_ENCAP", "PREFIX_SID", "FlowSpec v4/v6/VPN NLRI", "EVPN NLRI", "MUP NLRI",
-                       "SR-policy NLRI", "RTC NLRI", "BGP-LS NLRI", "api::MpReach message (local_path nexthop extraction)"],
-    modelled_not_verified=["kinds listed under hypothesis_backed: explored implementation-only against the round-trip / "
-                           "no-panic oracle (pristine GoBGP fixtures must round-trip exactly; mutated ones must not panic and "
-                           "must display stably)",
-                           "GrpcService::local_path / list_path assembly (NEXT_HOP, ORIGINATOR_ID, CLUSTER_LIST are stripped on "
-                           "add_path; ListPath shows no next hop at all)",
-                           "attribute / message size limits: u16 attr_len accumulation in do_encode, bin.len() as u16, 4096-byte "
-                           "messages (C04)",
-                           "label stacks deep enough to wrap the one-octet bit arithmetic of labeled.rs / vpn.rs (S7, C03/C04): "
-                           "excluded by the noWrap hypothesis and not generated on the wire stream",
-                           "SingleAsPathMatch and regex community matching in policy evaluation (C14); only AsPathLength and the "
-                           "as-prepend action are driven here",
-                           "f32 bit patterns of the traffic-rate extended community are carried as u32 bits"],
+                       "SR-policy NLRI", "RTC NLRI", "BGP-LS NLRI", "api::MpReach / TunnelEncap / PrefixSid / Ls / EVPN / "
+                       "SR-policy / RTC / FlowSpec API messages (never-panics, safe, stable, listed as sent)",
+                       "RPKI validation state shown by ListPath"],
+    modelled_not_verified=["kinds listed under hypothesis_backed: explored implementation-only (pristine GoBGP fixtures must round-trip "
+                           "exactly, one oracle clause per TLV type / NLRI type; mutated ones must not panic and must display stably; "
+                           "API messages of these kinds must never panic, and what is accepted must be safe, stable and listed as sent)",
+                           "the RPKI validation state ListPath shows (collect_paths phase 2, rpki_validation_to_api): observed through "
+                           "the real handlers and judged against Spec.rpkiExpected (RFC 6811 from the request alone), but the theorem "
+                           "side is property C12's; check_run_ok covers the grpc case only without VRPs",
+                           "message size on sessions with RFC 8654 extended messages (the consumers encode on a 4096-octet session; the "
+                           "value bound of WF is the 65535-octet maximum)",
+                           "SingleAsPathMatch and regex matching results in policy evaluation (C14): the harness runs community / "
+                           "ext-community / large-community conditions and actions for panics only",
+                           "f32 bit patterns of the traffic-rate extended community are carried as u32 bits",
+                           "two-octet-AS *decoding*, AddPath path identifiers and UPDATEs with several modelled attributes at once are "
+                           "not driven here (C03/C04/C05)"],
     assumptions=["a gRPC request is a prost message whose scalar fields are within their protobuf widths (u32 / i32 / bytes)"],
     claimed=True,
 )
@@ -618,6 +631,24 @@ def gen_grpc(r):
             attrs.append("(unknown %d %d %s)" % (r.pick([0xc0, 0xe0, 0x80]), r.pick([200, 99]), hx(rand_bytes(r, r.pick([0, 1, 4])))))
         else:
             attrs.append("atomic-aggregate")
+    if not v6 and k < 3 and r.chance(1, 2):
+        # VRPs around the route (covering / exact / more specific / sibling), origin AS from the path or none
+        base = r.pick([0x0a000000, 0xc0000200])
+        vrps = []
+        for _ in range(r.pick([1, 1, 2, 3])):
+            vl = r.pick([0, 8, 16, 24, 32])
+            va = base & (0xffffffff << (32 - vl)) & 0xffffffff if vl else 0
+            if r.chance(1, 5):
+                va = (va ^ (1 << (32 - vl))) & 0xffffffff if vl else 0      # sibling
+            vrps.append("(%d %d %d %d)" % (va, vl, r.pick([vl, 24, 32, 8]), r.pick([65001, 65000, 0, 65002, 1])))
+        # a well-formed path (so that the request is not refused for another attribute) ending in a VRP's AS,
+        # in another AS, in an AS_SET, or no AS_PATH at all (locally originated)
+        attrs = [a for a in attrs if a.startswith("(med") or a.startswith("(local-pref") or a.startswith("(communities")]
+        tail = r.pick(["(2 (65010 65001))", "(2 (65001))", "(2 (65010 65002))", "(2 (65010)) (1 (65001 65002))",
+                       "(2 (65010)) (3 (65001))", None, None])
+        if tail:
+            attrs.append("(as-path (%s))" % tail)
+        return "(grpc %s (%s) (vrps %s))" % (nlri, " ".join(attrs), " ".join(vrps))
     return "(grpc %s (%s))" % (nlri, " ".join(attrs))
 
 
